@@ -46,12 +46,12 @@ inductive GCond where
   | neg (c : GCond)
   | conj (c d : GCond)
   | disj (c d : GCond)
-  deriving Repr
+  deriving DecidableEq, Repr
 
 structure Guard where
   cond : GCond
   raises : String
-  deriving Repr
+  deriving DecidableEq, Repr
 
 structure AdapterRow where
   name : String
